@@ -1,7 +1,9 @@
 (* Executable mirror of internal/codegen/assign_actions.go (AssignActions,
    getActionMethods, getReduceTypeForGeneratedRule, matchMethod,
    getTermGoType, ruleFromMethod), of codegen.RuleGenerated, and of the value
-   flow of the `_act` template of emit_parser.go (`_cast[T]`).
+   flow of the `_act` template of emit_parser.go (`_cast[T]`), as of commits
+   156a4e1 / e7bf6de / 0c3cc7f (casts to the term's type; @error terms have
+   the error type also inside generated rules).
    Definitions only (no proofs): this file is extracted to OCaml and run
    against the real tool.  Theorems are in BindingProofs.v.
 
@@ -298,6 +300,9 @@ Fixpoint rt_get (rt : rtypes) (i : nat) : ity :=
   | (j, t) :: rest => if j =? i then t else rt_get rest i
   end.
 
+(* getTermGoType on a terminal *)
+Definition terminal_ty (tok err : ty) (i : nat) : ty := if i =? 1 then err else tok.
+
 Section WithOracle.
 Variable o : oracle.
 Variables tok err : ty.
@@ -327,12 +332,15 @@ Definition phase1_types (acts : list meth) : rtypes :=
 (* getReduceTypeForGeneratedRule *)
 Inductive rres := RP (s : psite) | RT (t : ity).
 
-(* type of prod.Terms[0] in the generated-rule cases: a terminal is always
-   c.TokenType there, ERROR included (unlike getTermGoType) *)
+(* type of prod.Terms[0] in the generated-rule cases: a rule has its
+   registered type, a terminal has getTermGoType(term): ErrorType for ERROR
+   (terminal 1), TokenType otherwise.  (Before commit e7bf6de a terminal was
+   always TokenType here, so `@error+` was registered as []Token while the
+   template built a []Error.) *)
 Definition first_term_ity (rt : rtypes) (p : bprod) : option ity :=
   match bp_terms p with
   | [] => None
-  | (true, _) :: _ => Some (IT tok)
+  | (true, i) :: _ => Some (IT (terminal_ty tok err i))
   | (false, c) :: _ => Some (rt_get rt c)
   end.
 
@@ -454,7 +462,7 @@ Definition missing_rules (rt : rtypes) : list bdiag :=
 
 (* getTermGoType *)
 Definition term_ity (rt : rtypes) (t : bool * nat) : ity :=
-  if fst t then (if snd t =? 1 then IT err else IT tok) else rt_get rt (snd t).
+  if fst t then IT (terminal_ty tok err (snd t)) else rt_get rt (snd t).
 
 (* matchMethod / isMatch *)
 Fixpoint params_match (rt : rtypes) (params : list ty) (terms : list (bool * nat)) : bool :=
@@ -580,16 +588,43 @@ Definition cast (o : oracle) (target : ty) (v : dyn) : dyn :=
       (if identical o t target then v else zero_of o target)
   end.
 
-(* the template as it is: parameter i of the bound method receives
-   _cast[<type of parameter i>](stack value) *)
-Definition param_value (o : oracle) (m : meth) (i : nat) (v : dyn) : dyn :=
+(* The template (since commit 156a4e1): each parameter of a user action
+   receives _cast[<Go type of the TERM>](stack value); the call converts it
+   implicitly to the parameter type, which assignability allows and which
+   keeps the value.  (A variadic last parameter gets `...` at the call since
+   0c3cc7f; nothing to model.) *)
+Definition param_value (o : oracle) (term_type : ty) (v : dyn) : dyn :=
+  cast o term_type v.
+
+Definition param_value_repaired := param_value.
+
+(* the pinned tree's template: _cast[<type of parameter i of the bound
+   method>](stack value) - see BindingProofs.cast_zero_refuted *)
+Definition param_value_old (o : oracle) (m : meth) (i : nat) (v : dyn) : dyn :=
   cast o (nth i (m_params m) 0) v.
 
-(* the repair: cast to the TERM's type (the static type the value was
-   produced at); the call then converts implicitly, which assignability
-   allows and which keeps the value *)
-Definition param_value_repaired (o : oracle) (term_type : ty) (v : dyn) : dyn :=
-  cast o term_type v.
+(* get_term_go_type with the rule types returned by assign_actions *)
+Fixpoint rtl_get (rtl : list (nat * ty)) (i : nat) : option ty :=
+  match rtl with
+  | [] => None
+  | (j, t) :: rest => if j =? i then Some t else rtl_get rest i
+  end.
+
+Definition term_go_type (tok err : ty) (rtl : list (nat * ty)) (t : bool * nat) : option ty :=
+  if fst t then Some (terminal_ty tok err (snd t)) else rtl_get rtl (snd t).
+
+(* the arguments of the action call for production p, given the stack values
+   of its terms (first term first) *)
+Fixpoint action_args (o : oracle) (tok err : ty) (rtl : list (nat * ty))
+         (terms : list (bool * nat)) (vs : list dyn) : list dyn :=
+  match terms, vs with
+  | t :: terms', v :: vs' =>
+    (match term_go_type tok err rtl t with
+     | Some s => param_value o s v
+     | None => v
+     end) :: action_args o tok err rtl terms' vs'
+  | _, _ => []
+  end.
 
 (* a value that an expression of static type S can hold *)
 Definition has_static_type (o : oracle) (S : ty) (v : dyn) : bool :=
@@ -598,15 +633,14 @@ Definition has_static_type (o : oracle) (S : ty) (v : dyn) : bool :=
   | Some t => if is_interface o S then implements o t S else identical o t S
   end.
 
-(* Generated rules.  The type REGISTERED for a generated rule comes from
-   getReduceTypeForGeneratedRule (terminal => TokenType); the value BUILT by
-   the template for one_or_more / list uses get_term_go_type (ERROR =>
-   ErrorType).  They differ for `@error+` / `@error*`: the registered type is
-   []Token, the value is a []<error type>. *)
+(* Generated rules.  The element type REGISTERED for a generated rule
+   (getReduceTypeForGeneratedRule) and the element type of the value BUILT by
+   the one_or_more / list templates (get_term_go_type) are the same function
+   since commit e7bf6de. *)
 Definition built_elem_type (tok err : ty) (rt : rtypes) (t : bool * nat) : ity :=
   term_ity tok err rt t.
-Definition registered_elem_type (tok : ty) (rt : rtypes) (t : bool * nat) : ity :=
-  if fst t then IT tok else rt_get rt (snd t).
+Definition registered_elem_type (tok err : ty) (rt : rtypes) (t : bool * nat) : ity :=
+  if fst t then IT (terminal_ty tok err (snd t)) else rt_get rt (snd t).
 
 (* ------------------------------------------------------------------ *)
 (* The shape of a grammar after lox's desugaring (ast/parser_term.go), as a
